@@ -29,15 +29,15 @@ def measure(font, size, unit, text="abc"):
             self.path, self.size = str(path), size
         def getlength(self, t):
             return fpx(self.path, self.size, t)
-    saved = sw.ImageFont
-    sw.ImageFont = NS(truetype=lambda path, size=None: FakeFont(path, size))
+    saved = swapped((__import__("PIL.ImageFont", fromlist=["x"]), NS(truetype=lambda path, size=None: FakeFont(path, size))))
+    saved.__enter__()
     try:
         try:
             return "ok", sw.get_string_width(text, font=font, font_size=size, unit=unit, dpi=72.0)
         except ValueError:
             return "ValueError", None
     finally:
-        sw.ImageFont = saved
+        saved.__exit__()
 
 def expected(name, size, unit, text="abc"):
     import importlib.resources as ir
@@ -49,7 +49,7 @@ def expected(name, size, unit, text="abc"):
 
 def build(tier, seed):
     quick = tier == "quick"
-    T = 90 if quick else 300
+    T = 240 if quick else 300
     obs = []
     obs.append(Ob(oid="O1.unit_conversions", kind="py", target="vf.engb_obs:strwidth_units", kwargs={"tier": tier, "seed": seed}, timeout=T,
                   funcs=["rtflite.strwidth:get_string_width"],
@@ -116,13 +116,13 @@ def build(tier, seed):
         def getlength(self, t):
             seen.append(t)
             return 7.0
-    saved = sw.ImageFont
-    sw.ImageFont = NS(truetype=lambda path, size=None: FakeFont())
+    saved = swapped((__import__("PIL.ImageFont", fromlist=["x"]), NS(truetype=lambda path, size=None: FakeFont())))
+    saved.__enter__()
     try:
         fresh_module()
         val = sw.get_string_width(text, font=pick([1, 4, 9], f), font_size=9, unit="px")
     finally:
-        sw.ImageFont = saved
+        saved.__exit__()
     if text == "":
         return val == 0 or (val == 7.0 and seen == [""])
     return seen == [text] and val == 7.0
